@@ -105,6 +105,15 @@ def _const_assign(tree, name):
     return None
 
 
+def _int_default(f, d, key):
+    """an integer argparse default; anything else (no default, None, an expression) is -999 = "not a literal
+    integer": the facts theorems that pin the documented defaults then fail to check"""
+    v = d.get(key)
+    if isinstance(v, bool) or not isinstance(v, int):
+        return -999
+    return v
+
+
 def argparse_defaults(unparsed):
     tree = _parse("options.py")
     want = {"at_level", "processes", "repeat", "ignore_dir", "only_level"}
@@ -212,9 +221,9 @@ def render(f):
         "def ignoreFolders : List String := [%s]" % ", ".join(_lstr(x) for x in f["ignoreFolders"]),
         "def compiledSuffixes : List String := [%s]" % ", ".join(_lstr(x) for x in f["compiledSuffixes"]),
         "def unitLayer : String := %s" % _lstr(f["unitLayer"]),
-        "def defaultAtLevel : Int := %d" % int(d.get("at_level", -999)),
-        "def defaultProcesses : Int := %d" % int(d.get("processes", -999)),
-        "def defaultRepeat : Int := %d" % int(d.get("repeat", -999)),
+        "def defaultAtLevel : Int := %d" % _int_default(f, d, "at_level"),
+        "def defaultProcesses : Int := %d" % _int_default(f, d, "processes"),
+        "def defaultRepeat : Int := %d" % _int_default(f, d, "repeat"),
         "def defaultOnlyLevelIsNone : Bool := %s" % _lbool("only_level" in d and d["only_level"] is None),
         "def defaultIgnoreDir : List String := [%s]" % ", ".join(_lstr(x) for x in d.get("ignore_dir", [])),
         "def defaultTestsPattern : String := %s" % _lstr(f["patterns"].get("tests_pattern", "")),
